@@ -80,7 +80,9 @@ func init() {
 	str := func(n int, l string) (refxp.Value, xsel.Result) { return l, xsel.String(l) }
 	stockFuncs["rec-f"] = mkRec("f", "", str)
 	stockFuncs["rec-pf"] = mkRec("f", adoc.URI_U, func(n int, l string) (refxp.Value, xsel.Result) { return "U:" + l, xsel.String("U:" + l) })
-	stockFuncs["rec-vf"] = mkRec("f", adoc.URI_V, func(n int, l string) (refxp.Value, xsel.Result) { return float64(n) + 0.5, xsel.Number(float64(n) + 0.5) })
+	stockFuncs["rec-vf"] = mkRec("f", adoc.URI_V, func(n int, l string) (refxp.Value, xsel.Result) {
+		return float64(n) + 0.5, xsel.Number(float64(n) + 0.5)
+	})
 	stockFuncs["rec-count"] = mkRec("count", "", func(n int, l string) (refxp.Value, xsel.Result) { return float64(100 + n), xsel.Number(100 + n) })
 	stockFuncs["rec-true"] = mkRec("true", "", func(n int, l string) (refxp.Value, xsel.Result) { return false, xsel.Bool(false) })
 	stockFuncs["rec-pos"] = mkRec("even", "", nil)
